@@ -15,7 +15,7 @@ PHASES = [
     ("size fixpoint", lambda t: "determine_pcr_relative_sizes" in t),
     ("address assignment", lambda t: ".set_address(" in t),
     ("address fix-up", lambda t: ".fix_addresses(" in t),
-    ("symbol back-patch", lambda t: "symbol_table[" in t and ".code_pkg.address" in t),
+    ("symbol back-patch", lambda t: "symbol_table" in t and ".code_pkg.address" in t),
     ("origin/name", lambda t: "is_origin" in t or "is_name" in t),
 ]
 
@@ -70,6 +70,35 @@ def lay1(ctx, c):
             c.finding("translate_statements:%s" % name, "iterates %s" % it, "the %s pass iterates %s instead of all of self.statements in order" % (name, it), repo.loc(fn, st))
         else:
             c.undecided("translate_statements:%s" % name, "iteration-shape-not-recognised", it or type(st).__name__, repo.loc(fn, st))
+    # every symbol is collected before any operand is resolved: a definition entered later (under a condition, or inside the resolution pass)
+    # is unknown to the statements that use it earlier in the source
+    if "symbol collection" in pos and "symbol resolution" in pos:
+        cst, rst = pos["symbol collection"][1], pos["symbol resolution"][1]
+
+        def guards(root, call):
+            out = []
+
+            def walk(node, stack):
+                for ch in ast.iter_child_nodes(node):
+                    if ch is call:
+                        out.extend(stack)
+                    walk(ch, stack + [node] if isinstance(node, ast.If) else stack)
+            walk(root, [])
+            return out
+        calls_c = [x for x in ast.walk(cst) if isinstance(x, ast.Call) and U(x.func).endswith("save_symbol")]
+        late = [x for x in ast.walk(rst) if isinstance(x, ast.Call) and U(x.func).endswith("save_symbol")] if rst is not cst else []
+        # `if statement.label:` skips nothing that has a symbol
+        cond = [g for x in calls_c for g in guards(cst, x) if not re.fullmatch(r"(not )?[\w.]*\.label( (is not None|!= ''|!= \"\"))?", U(g.test))]
+        if late:
+            c.finding("translate_statements:collection-complete", "symbols are also entered during the resolution pass",
+                      "save_symbol is called inside the pass that resolves operands (`%s`): a symbol defined further down is not yet in the table when an earlier statement that uses it "
+                      "is resolved, so forward references to it are rejected or read stale values" % U(late[0])[:60], repo.loc(fn, late[0]))
+        elif cond:
+            c.finding("translate_statements:collection-complete", "the collection pass skips statements (%s)" % U(cond[0].test)[:50],
+                      "the collection pass enters a statement's symbol only under `%s`: the symbols of the other statements are not known when operands are resolved" % U(cond[0].test)[:70],
+                      repo.loc(fn, cond[0]))
+        elif calls_c:
+            c.ok("translate_statements:collection-complete", "every statement's symbol is entered before any operand is resolved", repo.loc(fn, cst))
     # no pass stops before the last statement
     for name in [n_ for n_, _ in PHASES if n_ in pos]:
         st = pos[name][1]
@@ -116,19 +145,36 @@ def lay1(ctx, c):
                       "would be loaded at another address than the listing shows" % (og,), repo.loc(fn, pos["origin/name"][1]))
     # the fix-up pass hands each statement its own position: a position looked up by value finds the first EQUAL statement
     # (Statement defines __eq__ over a few fields), which is another statement whenever two lines read alike
-    if "address fix-up" in pos:
-        st = pos["address fix-up"][1]
-        for call in [x for x in ast.walk(st) if isinstance(x, ast.Call) and U(x.func).endswith(".fix_addresses") and len(x.args) >= 2]:
-            idx = call.args[1]
-            by_value = [x for x in ast.walk(idx) if isinstance(x, ast.Call) and isinstance(x.func, ast.Attribute) and x.func.attr == "index"]
-            has_eq = "__eq__" in repo.cls("Statement").methods
-            if by_value and has_eq:
-                c.finding("translate_statements:fix-up-index", "the position is looked up by value (%s)" % U(idx)[:50],
-                          "the fix-up pass passes `%s` as the statement's position: list.index compares with Statement.__eq__, so for two statements that compare equal the "
-                          "second one is fixed up as if it stood where the first does (its backward/forward decision and branch offset are computed from the wrong place)" % U(idx)[:60],
+    def position_source(loop, idx):
+        """where the position handed to a per-statement pass comes from: 'enumerate', 'by-value' (list.index) or None"""
+        if any(isinstance(x, ast.Call) and isinstance(x.func, ast.Attribute) and x.func.attr == "index" for x in ast.walk(idx)):
+            return "by-value", U(idx)
+        fors = [x for x in ast.walk(loop) if isinstance(x, ast.For)] if not isinstance(loop, ast.For) else [loop] + [x for x in ast.walk(loop) if isinstance(x, ast.For) and x is not loop]
+        for f_ in fors:
+            if isinstance(f_.target, ast.Tuple) and isinstance(idx, ast.Name) and any(isinstance(e_, ast.Name) and e_.id == idx.id for e_ in f_.target.elts):
+                first = isinstance(f_.target.elts[0], ast.Name) and f_.target.elts[0].id == idx.id
+                it_ = f_.iter
+                if isinstance(it_, ast.Call) and U(it_.func) == "enumerate" and first and it_.args and U(it_.args[0]) == "self.statements" and len(it_.args) == 1 and not it_.keywords:
+                    return "enumerate", U(it_)
+                byv = [x for x in ast.walk(it_) if isinstance(x, ast.Call) and isinstance(x.func, ast.Attribute) and x.func.attr == "index"]
+                if byv:
+                    return "by-value", U(byv[0])
+        return None, U(idx)
+
+    has_eq = "__eq__" in repo.cls("Statement").methods
+    for phase, meth, site_ in (("address fix-up", ".fix_addresses", "fix-up-index"), ("size fixpoint", ".determine_pcr_relative_sizes", "sizing-index")):
+        if phase not in pos:
+            continue
+        st = pos[phase][1]
+        for call in [x for x in ast.walk(st) if isinstance(x, ast.Call) and U(x.func).endswith(meth) and len(x.args) >= 2]:
+            kind_, src_ = position_source(st, call.args[1])
+            if kind_ == "by-value" and has_eq:
+                c.finding("translate_statements:%s" % site_, "the position is looked up by value (%s)" % src_[:50],
+                          "the %s pass passes a position obtained by `%s`: list.index compares with Statement.__eq__, so for two statements that compare equal the "
+                          "second one is handled as if it stood where the first does (its backward/forward decision, span and offset are computed from the wrong place)" % (phase, src_[:60]),
                           repo.loc(fn, call))
-            elif isinstance(st, ast.For) and isinstance(st.target, ast.Tuple) and U(idx) == U(st.target.elts[0]) and U(st.iter).startswith("enumerate("):
-                c.ok("translate_statements:fix-up-index", "the enumerate index of the statement itself", repo.loc(fn, call))
+            elif kind_ == "enumerate":
+                c.ok("translate_statements:%s" % site_, "the enumerate index of the statement itself", repo.loc(fn, call))
     # LAY-2 address pass
     if "address assignment" in pos:
         st = pos["address assignment"][1]
@@ -397,9 +443,8 @@ def exp1(ctx, c):
     ev_problems = []
     ev_notes = []
     for opch, pyop in (("+", lambda a, b: a + b), ("-", lambda a, b: a - b), ("*", lambda a, b: a * b), ("/", lambda a, b: int(a / b))):
-        for lk in ("symbol", "numeric"):
-            for rk in ("symbol", "numeric"):
-                lv, rv = 300, 7
+        for lk, rk, lv, rv in [(lk_, rk_, 300, 7) for lk_ in ("symbol", "numeric") for rk_ in ("symbol", "numeric")] + [("numeric", "numeric", 7, 300), ("symbol", "symbol", 16, 32)]:
+            if True:
 
                 def mk(kind, name, value):
                     o = _O("SymbolValue" if kind == "symbol" else "NumericValue", label="<%s %s>" % (kind, name))
@@ -587,7 +632,7 @@ def dir1(ctx, c):
     c.floor("pseudo rows", len(pseudo), 8)
     fn = repo.method("PseudoOperand", "translate", inherited=False)
     where = repo.loc(fn, fn.node)
-    outs = Interp(fn.node, consts=ctx.env).run()
+    outs = Interp(fn.node, consts=ctx.env, alias_paths=True).run()
     arms = {}
     default = None
     for o in outs:
@@ -713,6 +758,45 @@ def dir1(ctx, c):
             c.undecided("%s:separator" % cls, "split-not-recognised", "", repo.loc(f, f.node))
         else:
             c.check(seps == [","], "%s:separator" % cls, "split on ','", "split on %s" % seps, "%s splits its operand on %s" % (cls, seps), repo.loc(f, f.node))
+    # the list constructors folded for sample lists: one element per value, two's complement of negatives at the directive's width
+    from .wid import fold_constructor as _fcl, fold_method as _fml
+    from ..consteval import Raised as _Rl, NotConst as _Nl
+
+    def _objcall(cls_, args_, kw_, meth_, margs_, mkw_):
+        init_ = repo.method(cls_, "__init__", inherited=False)
+        a_ = dict(zip([p_ for p_ in init_.params if p_ != "self"], args_))
+        a_.update(kw_)
+        st_ = _fcl(ctx, cls_, a_)
+        if meth_.startswith("@"):
+            if "self." + meth_[1:] in st_:
+                return st_["self." + meth_[1:]]
+            raise _Nl("attribute %s" % meth_[1:])
+        return _fml(ctx, cls_, meth_, {k_: v_ for k_, v_ in st_.items() if k_.startswith("self.")}, margs_, mkw_)
+    for cls, w in (("MultiByteValue", 2), ("MultiWordValue", 4)):
+        f = repo.method(cls, "__init__", inherited=False)
+        bad_, und_ = None, None
+        samples = [("1,2,3", [1, 2, 3]), ("1,-1", [1, -1]), ("-128,127", [-128, 127]), ("$7F,$0A", [0x7F, 0x0A]), ("0,255", [0, 255])]
+        if w == 4:
+            samples += [("-129,$1234", [-129, 0x1234]), ("-256,-32768", [-256, -32768]), ("65535,256", [65535, 256])]
+        for text, vals in samples:
+            want_ = [("%%0%dX" % w) % (v_ & ((1 << (4 * w)) - 1)) for v_ in vals]
+            try:
+                got_ = _fcl(ctx, cls, {"value": text, "$objcall": ({"NumericValue"}, _objcall)}).get("self.hex_array")
+            except _Rl as e_:
+                got_ = "rejected (%s)" % e_.name
+            except (_Nl, Exception) as e_:
+                und_ = "%s for %r" % (str(e_)[:60], text)
+                break
+            if not (isinstance(got_, list) and [str(x).upper() for x in got_] == want_):
+                bad_ = (text, got_, want_)
+                break
+        if und_:
+            c.undecided("%s:elements" % cls, "constructor-not-foldable", und_, repo.loc(f, f.node))
+        elif bad_:
+            c.finding("%s:elements" % cls, "the list %s is stored as %s" % (bad_[0], bad_[1]),
+                      "%s(%r) holds %s; the directive emits %s (one element per value, negatives as two's complement at %d hex digits)" % (cls, bad_[0], bad_[1], bad_[2], w), repo.loc(f, f.node))
+        else:
+            c.ok("%s:elements" % cls, "folded for %d sample lists" % len(samples), repo.loc(f, f.node))
     sv = repo.method("StringValue", "__init__", inherited=False)
     t = U(sv.node)
     good = "value[-1] != value[0]" in t and "value[1:-1]" in t and "ord(x)" in t
@@ -920,6 +1004,38 @@ def inc1(ctx, c):
         c.finding("process_mnemonics:splice", "included statements inserted with %s" % U(inc_ext[0][3])[:50], "process_mnemonics does not splice the included statements at the INCLUDE's position", where)
     else:
         c.undecided("process_mnemonics:splice", "shape-not-recognised", str([(a, arg) for _, a, arg, _ in inc_ext]), where)
+    # every inclusion contributes Statement objects of its own: an object spliced in twice is laid out once (set_address returns the address a
+    # statement already has), so the second copy and everything after it is listed and addressed where the first copy stands
+    for recv_, how_, arg_, node_ in inc_ext:
+        a0 = node_.args[-1] if node_.args else None
+        stored = isinstance(a0, ast.Subscript) or (isinstance(a0, ast.Call) and isinstance(a0.func, ast.Attribute) and a0.func.attr in ("get", "setdefault", "pop")
+                                                     and not U(a0.func).endswith("process_mnemonics")) \
+            or (isinstance(a0, ast.Attribute) and not isinstance(a0.value, ast.Call))
+        if stored and how_ in ("extend", "append"):
+            c.finding("process_mnemonics:fresh-objects", "statements spliced in from a store (%s)" % arg_[:40],
+                      "process_mnemonics splices in `%s`: statements kept from an earlier inclusion are the same objects, which carry the address, size and code of their "
+                      "first placement; a file included twice is laid out once and every later address is wrong" % arg_[:60], repo.loc(fn, node_))
+    # textual inclusion has no exceptions: what the file holds is what is spliced in - nothing filtered out, and a file without statements contributes nothing
+    for recv_, how_, arg_, node_ in inc_ext:
+        a0 = node_.args[-1] if node_.args else None
+        srcs_ = [a0] + ([b_.value for b_ in ast.walk(loop) if isinstance(b_, ast.Assign) and any(U(t_) == a0.id for t_ in b_.targets)] if isinstance(a0, ast.Name) else [])
+        filt = [x for e_ in srcs_ if e_ is not None for x in ast.walk(e_)
+                if (isinstance(x, (ast.ListComp, ast.GeneratorExp)) and any(g_.ifs for g_ in x.generators)) or (isinstance(x, ast.Call) and U(x.func) == "filter")
+                or (isinstance(x, ast.Subscript) and isinstance(x.slice, ast.Slice) and not U(x.value).endswith("including"))]
+        if filt and how_ in ("extend", "append"):
+            c.finding("process_mnemonics:splice-whole", "the included statements are filtered (%s)" % U(filt[0])[:50],
+                      "process_mnemonics splices in `%s`: statements of the included file are left out, so the program differs from the one with the file's lines in place "
+                      "(a label or NAM on a dropped line is never defined)" % U(filt[0])[:70], repo.loc(fn, node_))
+        elif how_ == "extend":
+            c.ok("process_mnemonics:splice-whole", "every statement of the expansion is spliced in", repo.loc(fn, node_))
+    rec_vars = {U(b_.targets[0]) for b_ in ast.walk(loop) if isinstance(b_, ast.Assign) and isinstance(b_.value, ast.Call) and U(b_.value.func).endswith("process_mnemonics")}
+    for n_ in ast.walk(loop):
+        if isinstance(n_, ast.If) and n_.body and isinstance(n_.body[-1], ast.Raise) and re.fullmatch(r"not (\w+)|len\((\w+)\) == 0|(\w+) == \[\]", U(n_.test)):
+            v_ = next(g_ for g_ in re.fullmatch(r"not (\w+)|len\((\w+)\) == 0|(\w+) == \[\]", U(n_.test)).groups() if g_)
+            if v_ in rec_vars:
+                c.finding("process_mnemonics:empty-include", "an inclusion that yields no statements is refused (%s)" % U(n_.test),
+                          "process_mnemonics raises when `%s`: a file that holds only comments or blank lines is a legal include that contributes nothing; the program with its lines in "
+                          "place assembles" % U(n_.test), repo.loc(fn, n_))
     # the expansion is a fresh recursive parse of the file named by the operand
     t = U(loop)
     src_calls = [n for n in ast.walk(loop) if isinstance(n, ast.Call) and U(n.func) == "SourceFile"]
@@ -1082,6 +1198,19 @@ def inc1(ctx, c):
                       "(or any file whose name occurs inside a name already on the chain) is rejected as a cycle" % U(member[0]), repo.loc(fn, member[0]))
         elif member:
             c.ok("process_mnemonics:trail", "the chain is a collection of names", repo.loc(fn, member[0]))
+        # what stands for a file on the chain identifies the file: its last path component, its stem or its case-folded name is shared by different files
+        COARSE = ("basename", "splitext", "lower", "upper", "casefold", "stem", "rsplit", "split", "rpartition")
+        for m_ in member:
+            key = m_.left
+            srcs = [key] + [b_.value for b_ in ast.walk(loop) if isinstance(b_, ast.Assign) and any(U(t_) == U(key) for t_ in b_.targets)]
+            coarse = [x for e_ in srcs for x in ast.walk(e_) if (isinstance(x, ast.Call) and isinstance(x.func, ast.Attribute) and x.func.attr in COARSE)
+                      or (isinstance(x, ast.Attribute) and x.attr in ("stem", "name") and not U(x).startswith(("self.", "cls.")) and isinstance(x.ctx, ast.Load) and "Path" in U(x))]
+            if coarse:
+                c.finding("process_mnemonics:trail-identity", "files on the chain are identified by %s" % U(coarse[0])[:50],
+                          "process_mnemonics tests `%s` for the cycle check: two different files that share that part of their name (lib/defs.asm included from defs.asm) are taken "
+                          "for one, and a program without any cycle is rejected" % U(m_)[:70], repo.loc(fn, m_))
+            else:
+                c.ok("process_mnemonics:trail-identity", "files are identified by the name they are included by", repo.loc(fn, m_))
     # the whole file is read
     rc = repo.method("SourceFile", "read_assembly_contents")
     for x in ast.walk(rc.node):
@@ -1102,7 +1231,28 @@ def txt1(ctx, c):
     wp = repo.loc(pl, pl.node)
     from ..inline import flatten as _fl3
     t = U(_fl3(repo, pl, depth=2))
-    if re.search(r"group\('mnemonic'\)\.upper\(\)", t) or re.search(r"mnemonic\w*\.upper\(\)", t):
+    # the key the instruction is looked up by: an expression that is (or was assigned from) an upper-cased mnemonic field
+    pl_f0 = _fl3(repo, pl, depth=2)
+    keys = []
+    for n in ast.walk(pl_f0):
+        if isinstance(n, ast.Compare) and len(n.ops) == 1 and isinstance(n.ops[0], ast.Eq) and any(re.fullmatch(r"\w+\.mnemonic", U(x)) for x in (n.left, n.comparators[0])):
+            other = n.comparators[0] if re.fullmatch(r"\w+\.mnemonic", U(n.left)) else n.left
+            if not re.fullmatch(r"\w+\.mnemonic", U(other)) or U(other).startswith("self."):
+                keys.append(other)
+        if isinstance(n, ast.Call) and isinstance(n.func, ast.Attribute) and n.func.attr == "get" and n.args and "mnemonic" in U(n.args[0]).lower() and U(n.func.value).isupper():
+            keys.append(n.args[0])
+        if isinstance(n, ast.Subscript) and isinstance(n.ctx, ast.Load) and U(n.value).isupper() and "mnemonic" in U(n.slice).lower():
+            keys.append(n.slice)
+    raw_key = None
+    for k_ in keys:
+        srcs = [k_] + [b_.value for b_ in ast.walk(pl_f0) if isinstance(b_, ast.Assign) and any(U(t_) == U(k_) for t_ in b_.targets)]
+        if not any(isinstance(x, ast.Call) and isinstance(x.func, ast.Attribute) and x.func.attr in ("upper", "casefold", "lower") for e_ in srcs for x in ast.walk(e_)) \
+                and any(re.search(r"group\('mnemonic'\)", U(e_)) for e_ in srcs):
+            raw_key = k_
+    if raw_key is not None:
+        c.finding("parse_line:mnemonic-case", "the instruction is looked up by the mnemonic as typed (%s)" % U(raw_key)[:40],
+                  "parse_line finds the instruction by `%s`, the mnemonic field as written: a mnemonic in another letter case than the table provides for (Lda, lDA) is not found" % U(raw_key)[:60], wp)
+    elif re.search(r"group\('mnemonic'\)\.upper\(\)", t) or re.search(r"mnemonic\w*\.upper\(\)", t):
         c.ok("parse_line:mnemonic-case", "mnemonic upper-cased before lookup", wp)
     elif re.search(r"self\.mnemonic = \w+\.group\('mnemonic'\)( or '')?\n", t) and ".upper()" not in t:
         c.finding("parse_line:mnemonic-case", "mnemonic not upper-cased", "parse_line looks the mnemonic up without folding it to upper case", wp)
@@ -1113,6 +1263,11 @@ def txt1(ctx, c):
     # the operand field reaches the operand classes as written: symbols are case sensitive
     pl_flat_ = _fl3(repo, pl, depth=2)
     opvars = {U(n.targets[0]) for n in ast.walk(pl_flat_) if isinstance(n, ast.Assign) and isinstance(n.targets[0], ast.Name) and re.search(r"group\('operands'\)", U(n.value))}
+    for n in ast.walk(pl_flat_):
+        if isinstance(n, ast.Assign) and isinstance(n.targets[0], ast.Tuple) and isinstance(n.value, ast.Tuple) and len(n.targets[0].elts) == len(n.value.elts):
+            for e_, v_ in zip(n.targets[0].elts, n.value.elts):
+                if isinstance(e_, ast.Name) and re.search(r"group\('operands'\)", U(v_)):
+                    opvars.add(e_.id)
     cased = [n for n in ast.walk(pl_flat_) if isinstance(n, ast.Call) and isinstance(n.func, ast.Attribute) and n.func.attr in ("upper", "lower", "casefold", "swapcase", "title", "capitalize")
              and (re.search(r"group\('operands'\)", U(n.func.value)) or U(n.func.value) in opvars)]
     if cased:
@@ -1121,6 +1276,52 @@ def txt1(ctx, c):
                   % U(cased[0])[:50], repo.loc(pl, cased[0]))
     else:
         c.ok("parse_line:operand-case", "the operand field is passed on as written", wp)
+    # ... and whole: whatever stands in the operand column is the operand, for every instruction; text dropped or moved into the comment on the way is an operand the
+    # instruction's mode checks never see (CLRA #5 assembles as CLRA)
+    all_binds = {}
+    for n in ast.walk(pl_flat_):
+        if isinstance(n, ast.Assign):
+            for t_ in n.targets:
+                for e_ in (t_.elts if isinstance(t_, ast.Tuple) else [t_]):
+                    if isinstance(e_, ast.Name):
+                        all_binds.setdefault(e_.id, []).append(n)
+    for call in [n for n in ast.walk(pl_flat_) if isinstance(n, ast.Call) and U(n.func) == "Operand.create_from_str" and n.args]:
+        a0 = call.args[0]
+        if isinstance(a0, ast.Name) and a0.id in opvars and len(all_binds.get(a0.id, [])) > 1:
+            others = [b_ for b_ in all_binds[a0.id] if not re.search(r"group\('operands'\)", U(b_.value))]
+            blank = [b_ for b_ in others if re.search(r"(^|[ ,(=])(''|\"\")", U(b_.value))]
+            if blank:
+                c.finding("parse_line:operand-whole", "the operand field is replaced before it reaches the operand classes (%s)" % U(blank[0])[:50],
+                          "parse_line rebinds the operand text by `%s` before Operand.create_from_str sees it: what the source has in the operand column is then not checked against "
+                          "the instruction's addressing modes" % U(blank[0])[:70], repo.loc(pl, call))
+            else:
+                c.undecided("parse_line:operand-whole", "the operand text is rebound on the way", U(others[0])[:80] if others else "", repo.loc(pl, call))
+        elif re.search(r"group\('operands'\)", U(a0)) or (isinstance(a0, ast.Name) and a0.id in opvars):
+            c.ok("parse_line:operand-whole", "the operand column reaches Operand.create_from_str as matched", repo.loc(pl, call))
+    # every character of a source line reaches the line pattern: a line cut at a fixed column loses operand text as soon as more white space pushes it there
+    pp = repo.method("Program", "parse")
+    for call in [n for n in ast.walk(pp.node) if isinstance(n, ast.Call) and U(n.func) == "Statement" and n.args]:
+        a0 = call.args[0]
+        srcs = [a0]
+        if isinstance(a0, ast.Name):
+            srcs += [b_.value for b_ in ast.walk(pp.node) if isinstance(b_, ast.Assign) and any(U(t_) == a0.id for t_ in b_.targets)]
+        cut = [x for e_ in srcs for x in ast.walk(e_) if isinstance(x, ast.Subscript) and isinstance(x.slice, ast.Slice) and (x.slice.upper is not None or x.slice.lower is not None)]
+        cut += [x for e_ in srcs for x in ast.walk(e_) if isinstance(x, ast.Call) and isinstance(x.func, ast.Attribute) and x.func.attr in ("ljust", "rjust", "center", "expandtabs", "split", "partition")]
+        if cut:
+            c.finding("Program.parse:line-whole", "a source line is cut before it is parsed (%s)" % U(cut[0])[:40],
+                      "Program.parse hands `%s` to Statement: text beyond the cut is ignored, so a long FCB/FDB/FCC operand loses its end when white space between the fields grows, "
+                      "and nothing is reported" % U(cut[0])[:60], repo.loc(pp, call))
+        elif isinstance(a0, ast.Name) and len(srcs) == 1:
+            c.ok("Program.parse:line-whole", "each line is parsed as read", repo.loc(pp, call))
+    # a label is whatever stands in column 1: no spelling of it is refused (renaming labels consistently must not change whether a program assembles)
+    lab_guard = [n for n in ast.walk(pl_flat_) if isinstance(n, ast.If) and n.body and isinstance(n.body[-1], ast.Raise)
+                 and re.search(r"self\.label\b|group\('label'\)", U(n.test)) and not re.fullmatch(r"(not )?self\.label", U(n.test))]
+    if lab_guard:
+        c.finding("parse_line:label-spelling", "a line is refused for the text of its label (%s)" % U(lab_guard[0].test)[:50],
+                  "parse_line raises when `%s`: labels are positional and any name is a label, so a program that assembles stops assembling when its labels are renamed to such names"
+                  % U(lab_guard[0].test)[:80], repo.loc(pl, lab_guard[0]))
+    else:
+        c.ok("parse_line:label-spelling", "no label name is refused", wp)
     mod = repo.cls("Statement").module
     node = mod.assigns.get("ASM_LINE_REGEX")
     pat = try_fold(node.args[0]) if isinstance(node, ast.Call) and node.args else None
@@ -1230,6 +1431,27 @@ def exp2(ctx, c):
                     break
     if not found:
         c.ok("ExpressionValue:wrap", "no result is reduced modulo 2^8 / 2^16 before the range check", repo.cls("ExpressionValue").module.rel)
+    # a division by zero has no value: it must end in an exception (Statement.resolve_symbols turns it into a diagnostic), not in a number
+    from ..consteval import fold as _fz, NotConst as _Nz
+    for m in repo.cls("ExpressionValue").methods.values():
+        parents = {}
+        for x in ast.walk(m.node):
+            for ch in ast.iter_child_nodes(x):
+                parents[ch] = x
+        for x in ast.walk(m.node):
+            if isinstance(x, ast.BinOp) and isinstance(x.op, (ast.Div, ast.FloorDiv, ast.Mod)) and isinstance(x.right, ast.Name) and isinstance(x.left, ast.Name):
+                top = x
+                while isinstance(parents.get(top), (ast.BinOp, ast.IfExp, ast.BoolOp, ast.UnaryOp)) or (
+                        isinstance(parents.get(top), ast.Call) and U(parents[top].func) in ("int", "round", "abs", "math.floor", "math.trunc")):
+                    top = parents[top]
+                try:
+                    v = _fz(top, {x.left.id: 7, x.right.id: 0, "int": int})
+                except (_Nz, ZeroDivisionError, Exception):
+                    c.ok("%s:division-by-zero" % m.q, "n / 0 has no value: the evaluation raises", repo.loc(m, x))
+                    continue
+                c.finding("%s:division-by-zero" % m.q, "7 / 0 evaluates to %r" % (v,),
+                          "%s computes `%s`, which gives %r for a zero divisor: a division by zero is assembled as if it had a value instead of being reported" % (m.q, U(top)[:60], v),
+                          repo.loc(m, x))
 
 
 def dir4(ctx, c):
